@@ -132,7 +132,20 @@ impl Builder {
             }
             this.ops.push(WOp::Start { f, name: n });
         };
-        let dup = self.names.last().cloned().unwrap_or_else(|| Name::lit("never-used-yet"));
+        // sampled sequences: 'duplicate', 'open' and 'ended' are not always the most recent one (two draws in three pick
+        // any earlier name / any open file / any ended file)
+        let mut rng = rng;
+        let sel: Option<u64> = rng.as_deref_mut().map(Rng::u64);
+        let choose = |v: &[usize], last: bool| -> Option<usize> {
+            match sel {
+                Some(x) if x % 3 != 0 && !v.is_empty() => Some(v[(x / 3) as usize % v.len()]),
+                _ => if last { v.last().copied() } else { v.first().copied() },
+            }
+        };
+        let dup = match sel {
+            Some(x) if x % 3 != 0 && !self.names.is_empty() => self.names[(x / 3) as usize % self.names.len()].clone(),
+            _ => self.names.last().cloned().unwrap_or_else(|| Name::lit("never-used-yet")),
+        };
         let long_seed = 1000 + k as u64;
         match sym {
             0 => {
@@ -161,7 +174,7 @@ impl Builder {
             }
             8 | 9 | 10 => {
                 // append to the most recently opened file (or a never-issued handle if none)
-                let f = self.open.last().copied().unwrap_or(900 + k);
+                let f = choose(&self.open, true).unwrap_or(900 + k);
                 let mut d = self.data(k);
                 if let Some(r) = rng {
                     let n = *r.pick(&[0usize, 1, 3, 8, 33, 129, 300]);
@@ -175,7 +188,7 @@ impl Builder {
                 self.ops.push(WOp::Append { f, data: d, src });
             }
             11 => {
-                let f = self.ended.last().copied().unwrap_or(800 + k);
+                let f = choose(&self.ended, true).unwrap_or(800 + k);
                 let d = self.data(k);
                 self.ops.push(WOp::Append { f, data: d, src: Src::exact() });
             }
@@ -184,7 +197,7 @@ impl Builder {
                 self.ops.push(WOp::Append { f: 700 + k, data: d, src: Src::exact() });
             }
             13 => {
-                let f = self.open.last().copied().unwrap_or(600 + k);
+                let f = choose(&self.open, true).unwrap_or(600 + k);
                 if let Some(p) = self.open.iter().position(|x| *x == f) {
                     if !self.finalized {
                         self.open.remove(p);
@@ -194,7 +207,7 @@ impl Builder {
                 self.ops.push(WOp::End { f });
             }
             14 => {
-                let f = self.ended.last().copied().unwrap_or(500 + k);
+                let f = choose(&self.ended, true).unwrap_or(500 + k);
                 self.ops.push(WOp::End { f });
             }
             15 => self.ops.push(WOp::End { f: 400 + k }),
@@ -231,7 +244,7 @@ impl Prop for C09 {
         "exploration"
     }
     fn rule(&self) -> String {
-        "run = one writer call sequence over a 19-symbol alphabet {start(fresh | duplicate | empty | 65536-byte | 65537-byte name), add(fresh | duplicate | 65537-byte name), append(to the most recently opened file from an exact | short | longer source; to the oldest open file; to an ended file; to a never-issued id), end(open | ended | never-issued id), flush, finalize}. ALL sequences of length 1..3 (quick) / 1..4 (thorough) are enumerated on the s0 build without layers; then 132 runs with ONE append whose source ends exactly on j x 2^e bytes (e = 12..22, j = 1..3; production constants, all layer sets) while 1 byte, half a unit, a unit or several units more were announced - the edge of whatever copy buffer lies on the path; the remaining runs are seeded sequences of length 5..40 on all variants and layer sets with seeded piece sizes. A model interprets the sequence: which calls must be refused (duplicate or over-long name, file not open, anything after finalize, finalize with open files), what the archive described by the accepted calls is. Oracle: the library refuses exactly those calls; a short source is never Ok; afterwards the harness ends the open files and finalizes, and the archive must read back to the model that ignored the refused calls (listing, sizes, bytes, hashes), repair of it must give the same files and linear extraction must agree. After a short source the archive counts as poisoned: only no-panic is demanded. distinct_nontrivial = distinct (variant, layers, multiset of (symbol, outcome) pairs, final state) signatures.".into()
+        "run = one writer call sequence over a 19-symbol alphabet {start(fresh | duplicate | empty | 65536-byte | 65537-byte name), add(fresh | duplicate | 65537-byte name), append(to the most recently opened file from an exact | short | longer source; to the oldest open file; to an ended file; to a never-issued id), end(open | ended | never-issued id), flush, finalize}. ALL sequences of length 1..3 (quick) / 1..4 (thorough) are enumerated on the s0 build without layers; then 132 runs with ONE append whose source ends exactly on j x 2^e bytes (e = 12..22, j = 1..3; production constants, all layer sets) while 1 byte, half a unit, a unit or several units more were announced - the edge of whatever copy buffer lies on the path; the remaining runs are seeded sequences of length 5..40 on all variants and layer sets with seeded piece sizes, in which 'duplicate', 'open' and 'ended' mean ANY earlier name / open file / ended file two times in three (the most recent one otherwise). A model interprets the sequence: which calls must be refused (duplicate or over-long name, file not open, anything after finalize, finalize with open files), what the archive described by the accepted calls is. Oracle: the library refuses exactly those calls; a short source is never Ok; afterwards the harness ends the open files and finalizes, and the archive must read back to the model that ignored the refused calls (listing, sizes, bytes, hashes), repair of it must give the same files and linear extraction must agree. After a short source the archive counts as poisoned: only no-panic is demanded. distinct_nontrivial = distinct (variant, layers, multiset of (symbol, outcome) pairs, final state) signatures.".into()
     }
     fn assumptions(&self) -> Vec<String> {
         vec!["a source longer than announced is legal (the first `size` bytes are kept); flush after finalize is not a refused call".into()]
